@@ -20,6 +20,28 @@ pub struct St {
 #[derive(Clone, Debug, PartialEq, Eq)]
 pub struct Tok(pub u32);
 
+/// A value constructed by the SAME text whatever type the context wants: lets a `=>` rule (wants a token) and a `=?` rule (wants a
+/// `Result`) have token-for-token identical right-hand sides, `|lexer| lexer.return_(lv::auto())`.
+pub trait Auto {
+    fn auto() -> Self;
+}
+
+impl Auto for Tok {
+    fn auto() -> Tok {
+        Tok(9000)
+    }
+}
+
+impl Auto for Result<Tok, u32> {
+    fn auto() -> Self {
+        Err(9001)
+    }
+}
+
+pub fn auto<T: Auto>() -> T {
+    T::auto()
+}
+
 pub fn show_loc(l: Loc) -> String {
     format!("{}:{}:{}", l.line, l.col, l.byte_idx)
 }
@@ -277,13 +299,20 @@ fn parse_nums(s: &str) -> Vec<u32> {
 /// Case file: one case per line: `prog cid ctor ncalls ; cps ; script ; clone points`.
 pub fn main_loop<F>(run: F)
 where
-    F: Fn(&Case, &mut String) -> bool + std::panic::RefUnwindSafe,
+    F: Fn(&Case, &mut String) -> bool + std::panic::RefUnwindSafe + Sync,
 {
     let args: Vec<String> = std::env::args().collect();
     let input = std::fs::read_to_string(&args[1]).unwrap();
     let stdout = std::io::stdout();
     std::panic::set_hook(Box::new(|_| {}));
-    for line in input.lines() {
+    // LV_MODE=fresh_rev: the cases in reverse order, each on a freshly spawned thread: a lexer's behaviour must not depend on what ran before
+    // it in the process or on the thread (no state outside the lexer value)
+    let fresh_rev = std::env::var("LV_MODE").map(|m| m == "fresh_rev").unwrap_or(false);
+    let mut lines: Vec<&str> = input.lines().collect();
+    if fresh_rev {
+        lines.reverse();
+    }
+    for line in lines {
         let parts: Vec<&str> = line.split(';').collect();
         if parts.len() != 4 {
             continue;
@@ -308,11 +337,18 @@ where
             o.flush().unwrap();
         }
         let mut out = String::new();
-        let res = std::panic::catch_unwind(std::panic::AssertUnwindSafe(|| {
-            let mut buf = String::new();
-            let known = run(&case, &mut buf);
-            (known, buf)
-        }));
+        let run_case = || {
+            std::panic::catch_unwind(std::panic::AssertUnwindSafe(|| {
+                let mut buf = String::new();
+                let known = run(&case, &mut buf);
+                (known, buf)
+            }))
+        };
+        let res = if fresh_rev {
+            std::thread::scope(|s| s.spawn(run_case).join().unwrap_or_else(Err))
+        } else {
+            run_case()
+        };
         match res {
             Ok((true, buf)) => out.push_str(&buf),
             Ok((false, _)) => out.push_str("N UNKNOWNPROG\n"),
